@@ -6,6 +6,7 @@ import (
 	"lunar/engine/streams/processors/utils"
 	publictypes "lunar/engine/streams/public-types"
 	streamtypes "lunar/engine/streams/types"
+	lunar_utils "lunar/engine/utils"
 	"lunar/engine/utils/environment"
 	"lunar/engine/verifhook"
 	clock "lunar/toolkit-core/clock"
@@ -99,6 +100,11 @@ func (p *queueProcessor) Execute(
 	flowName string,
 	apiStream publictypes.APIStreamI,
 ) (streamtypes.ProcessorIO, error) {
+	// A response whose request was not captured has no request to queue.
+	if lunar_utils.IsInterfaceNil(apiStream.GetRequest()) {
+		return streamtypes.ProcessorIO{}, fmt.Errorf("request not found")
+	}
+
 	p.logger.Trace().Str("requestID", apiStream.GetRequest().GetID()).
 		Str("quotaID", p.quotaID).
 		Msg("Processing request")
